@@ -18,12 +18,12 @@ def run(rep, tier):
     events, bad = halpipe.run_corpus(rep, wd, "c07", tier)
     halpipe.binding_selftest(rep, wd, os.path.join(wd, "c07.s0.events.ndjson"), "c07")
     nb = halpipe.report(rep, events, bad, {"sem", "sem1", "enum"}, "c07")
-    for e in events[:: max(1, len(events) // 3)][:3]:
+    for e in [events[i] for i in range(0, len(events), max(1, len(events) // 3))][:3]:
         rep.sample({k: e[k] for k in ("op", "n", "rs", "p", "shape")})
     # magnitude corpus: FFT64 must equal the exact NTT120 arithmetic inside its domain; no panics
     ev2, bad2 = halpipe.run_corpus(rep, wd, "mag", tier)
     nb2 = halpipe.report(rep, ev2, bad2, {"sem", "be"}, "mag")
-    for e in ev2[:: max(1, len(ev2) // 2)][:2]:
+    for e in [ev2[i] for i in range(0, len(ev2), max(1, len(ev2) // 2))][:2]:
         rep.sample({k: e[k] for k in ("op", "n", "rs", "p", "shape", "chk")})
     rep.extra["exhaustive"] = True
     rep.rule = ("c07: every (op, shape, step/offset/limb_offset/cnv_offset/mask/scale, value class) descriptor of Gen_C07 enumerated by TLC, executed on 4 back-ends x 2 pre-fills "
